@@ -175,7 +175,15 @@ class C07:
     assumptions = ["u32 fields, 20-byte hash/id, payloads with length prefix <= 65536 (FieldsOk)"]
 
     def corpus(self):
-        return []
+        # every single-byte deviation of a handshake's fixed beginning must be refused
+        out = []
+        for k in range(20):
+            h = bytearray(py_encode(("handshake", bytes(range(20)), bytes(range(20, 40)))))
+            h[k] ^= 0x20
+            c = Case("parse %s" % segs([bytes(h)]), "parse-handshake-deviation", {"byte": k}, True, [])
+            self._bufs[c.line] = bytes(h)
+            out.append(c)
+        return out
 
     def gen(self, rng, tier):
         n = {"quick": 2500, "thorough": 40000, "search": 8000}[tier]
@@ -251,6 +259,10 @@ class C07:
             ln = rng.choice([1, 2, 5, 30, 65536, 65537]) if rng.random() < 0.5 else rng.randrange(1, 40)
             body = rbytes(rng, rng.choice([0, ln - 1 if ln < 100 else 3, max(0, ln - 2) if ln < 100 else 7, rng.randrange(0, 50)]))
             return [be32(ln) + bytes([mid]) + body]
+        if r < 0.89:  # a handshake with exactly one byte of its fixed beginning (length byte + protocol name) off
+            h = bytearray(py_encode(("handshake", rbytes(rng, 20), rbytes(rng, 20))))
+            h[rng.randrange(20)] ^= rng.choice([1, 0x20, 0x80, 0xff])
+            return [bytes(h)]
         b = bytearray(enc[:200])
         for _ in range(rng.randrange(1, 4)):
             if b:
